@@ -75,7 +75,8 @@ func main() {
 			"after each query the handler's JSON is compared with a multiset model (one error per unmet evaluation since the last reset, none for API requests, pingback: one error iff no matching request since the last reset). " +
 			"Concurrent: the same operations from 2..8 goroutines against top-level group / filter / bare verifier in both wirings (quick 40 runs + 120 under the race detector, thorough 1200 + 1400), per-verifier histories " +
 			"{add(request), read->multiset, reset} checked for linearizability with porcupine; the workload also runs under the race detector. " +
-			"A class = (top-level kind | depth | verifier kinds bucket | branch placement | history pattern) observed at a compared query, plus porcupine partitions checked by verifier kind and overlap bucket.",
+			"API exchanges are drawn from the same distribution as ordinary traffic w.r.t. everything verifiers and filters look at (header present with matching / other / blank value or absent on either side, method, query keys, cookies; API responses carry the drawn headers). " +
+			"A class = (top-level kind | depth | verifier kinds bucket | branch placement | history pattern) observed at a compared query, (verifier kind | side | failure path or met | api or traffic) for every evaluation covered by a compared query, plus porcupine partitions checked by verifier kind and overlap bucket.",
 		Assumptions: []string{
 			"trees are restricted to node types that implement martian's verify walk (fifo.Group and filter.Filter-based filters); verifiers under priority.Group, header.RegexFilter or port.Filter are not explored",
 			"an error message is attributed to (verifier, request) by the verifier's distinguishing string and the request's URL token, not by its exact text",
@@ -266,6 +267,9 @@ func (s *sut) roundTrip(req *http.Request) (*http.Response, error) {
 		res := rec.Result()
 		res.Request = req
 		res.ContentLength = int64(rec.Body.Len()) // as a real API server would frame it
+		if v, ok := s.origin.Load(tokRe.FindString(req.URL.RawQuery)); ok {
+			addAPIResponseHeaders(res, v.(*cfgx.Msg))
+		}
 		return res, nil
 	}
 	tok := tokRe.FindString(req.URL.RawQuery)
@@ -276,6 +280,19 @@ func (s *sut) roundTrip(req *http.Request) (*http.Response, error) {
 	res := v.(*cfgx.Msg).Response(req)
 	res.ContentLength = 0
 	return res, nil
+}
+
+// addAPIResponseHeaders gives the API server's answer the response headers
+// drawn for the exchange (as a CORS wrapper or any API front end would add
+// headers), so that responses to API requests exercise every path of the
+// response-side verifiers too.
+func addAPIResponseHeaders(res *http.Response, msg *cfgx.Msg) {
+	for _, p := range msg.ResHdr {
+		res.Header.Add(p.N, p.V)
+	}
+	for _, c := range msg.SetCk {
+		res.Header.Add("Set-Cookie", c.N+"="+c.V)
+	}
 }
 
 // client is one downstream connection in proxy mode.
@@ -323,6 +340,7 @@ func (s *sut) exchangeDirect(msg *cfgx.Msg, stamp func() int64) exResult {
 		res = rec.Result()
 		res.Request = req
 		out.body = rec.Body.Bytes()
+		addAPIResponseHeaders(res, msg)
 	} else {
 		res = msg.Response(req)
 	}
@@ -336,9 +354,7 @@ func (s *sut) exchangeDirect(msg *cfgx.Msg, stamp func() int64) exResult {
 // exchangeProxy sends the exchange through the real proxy on connection cl.
 func (s *sut) exchangeProxy(cl *client, msg *cfgx.Msg, stamp func() int64) exResult {
 	var out exResult
-	if !msg.API {
-		s.origin.Store(tokRe.FindString(msg.Query), msg)
-	}
+	s.origin.Store(tokRe.FindString(msg.Query), msg)
 	var sb strings.Builder
 	fmt.Fprintf(&sb, "%s %s HTTP/1.1\r\nHost: %s\r\n", msg.Method, msg.URL(), msg.Host)
 	for _, p := range msg.ReqHdr {
@@ -477,19 +493,38 @@ func (a *attributor) attribute(msg string) (attr, string) {
 	}
 	stripped := strings.Join(rest, " ")
 	st := cfgx.NewState(ri.Msg)
-	var cands []int
+	if ri.Msg.API { // verifiers see the URL as api.Forwarder rewrote it
+		st.Scheme, st.Host = "http", fmt.Sprintf("%s:%d", apiHost, apiPort)
+	}
+	var cands, all []int
 	for i, v := range a.vs {
 		if v.Kind == cfgx.KVPingback || !strings.Contains(stripped, cfgx.VTok(v)) {
 			continue
 		}
+		all = append(all, i)
 		k := side
 		if !cfgx.Supports(v.Kind, k) {
 			k = 1 - k
 		}
-		if !ri.Msg.API && !cfgx.Unmet(v, k, st) {
+		if !cfgx.Unmet(v, k, st) {
 			continue // the request meets this verifier: its token is only the "got" value
 		}
+		if v.Kind == cfgx.KVURL && !tokenPartDiffers(v, st) {
+			continue // its host/path is the request's own ("got"); it can only have failed on the scheme
+		}
 		cands = append(cands, i)
+	}
+	if len(cands) == 0 && len(all) == 0 {
+		// a scheme-only mismatch of a url verifier names no token outside the URL;
+		// at most one url verifier per tree expects a scheme
+		for i, v := range a.vs {
+			if v.Kind == cfgx.KVURL && v.Attr("scheme") != "" && side == cfgx.Req && !tokenPartDiffers(v, st) && cfgx.Unmet(v, cfgx.Req, st) {
+				cands = append(cands, i)
+			}
+		}
+	}
+	if len(cands) == 0 && ri.Msg.API {
+		cands = all // an API request is not judged by its content
 	}
 	if len(cands) != 1 {
 		return attr{Req: ri}, fmt.Sprintf("%d candidate verifiers for request %s", len(cands), tok)
@@ -499,6 +534,15 @@ func (a *attributor) attribute(msg string) (attr, string) {
 		side = 1 - side
 	}
 	return attr{VIdx: cands[0], Side: side, Req: ri}, ""
+}
+
+// tokenPartDiffers reports whether the URL part that carries url verifier v's
+// token (host, else path) differs from the request's.
+func tokenPartDiffers(v *cfgx.Node, st *cfgx.State) bool {
+	if h := v.Attr("host"); h != "" {
+		return h != st.Host
+	}
+	return v.Attr("path") != st.Path
 }
 
 // ---------------------------------------------------------------------------
@@ -519,14 +563,6 @@ type seqCase struct {
 	Tree   *cfgx.Node `json:"tree"`
 	Steps  []hstep    `json:"steps"`
 	JSON   string     `json:"config_json,omitempty"`
-}
-
-func apiMsg(rng interface{ Intn(int) int }, path, method string, id int) *cfgx.Msg {
-	m := &cfgx.Msg{Method: method, Scheme: "http", Host: apiName, Path: path, Query: "t=" + cfgx.ReqTok(id), Status: 200, API: true}
-	if rng.Intn(2) == 0 {
-		m.ReqHdr = append(m.ReqHdr, cfgx.Pair{N: cfgx.HNames[rng.Intn(len(cfgx.HNames))], V: cfgx.Vals[rng.Intn(len(cfgx.Vals))]})
-	}
-	return m
 }
 
 func genSeq(r *vh.Run, stream string, idx int) seqCase {
@@ -559,7 +595,7 @@ func genSeq(r *vh.Run, stream string, idx int) seqCase {
 			id++
 			var m *cfgx.Msg
 			if rng.Intn(100) < pAPI {
-				m = apiMsg(rng, "/configure", "GET", id)
+				m = cfgx.GenAPI(rng, c.Tree, id, apiName, "/configure", "GET", false)
 			} else {
 				m = cfgx.GenTraffic(rng, c.Tree, id)
 				if c.Proxy {
@@ -570,14 +606,14 @@ func genSeq(r *vh.Run, stream string, idx int) seqCase {
 		case x < 82:
 			if rng.Intn(100) < 2*pAPI {
 				id++
-				c.Steps = append(c.Steps, hstep{Op: "query", Via: "proxy", Msg: apiMsg(rng, "/verify", "GET", id)})
+				c.Steps = append(c.Steps, hstep{Op: "query", Via: "proxy", Msg: cfgx.GenAPI(rng, c.Tree, id, apiName, "/verify", "GET", true)})
 			} else {
 				c.Steps = append(c.Steps, hstep{Op: "query", Via: "direct"})
 			}
 		default:
 			if rng.Intn(100) < 2*pAPI {
 				id++
-				c.Steps = append(c.Steps, hstep{Op: "reset", Via: "proxy", Msg: apiMsg(rng, "/verify/reset", "POST", id)})
+				c.Steps = append(c.Steps, hstep{Op: "reset", Via: "proxy", Msg: cfgx.GenAPI(rng, c.Tree, id, apiName, "/verify/reset", "POST", true)})
 			} else {
 				c.Steps = append(c.Steps, hstep{Op: "reset", Via: "direct"})
 			}
@@ -596,6 +632,7 @@ type seqModel struct {
 	pingEver map[int]bool // seen before some reset
 	resets   int
 	apiSeen  int
+	pathCls  []string // failure-path classes of the exchanges since the last reset / compared query
 }
 
 type attrKey struct {
@@ -608,34 +645,75 @@ func newSeqModel(a *attributor) *seqModel {
 	return &seqModel{a: a, pending: map[attrKey]int{}, cleared: map[attrKey]int{}, pingSeen: map[int]bool{}, pingEver: map[int]bool{}}
 }
 
+// evalRec is one evaluation of a verifier side by an exchange, with the
+// failure path it takes ("" = expectation met).
+type evalRec struct {
+	VIdx int
+	Side cfgx.Kind
+	Path string
+}
+
+// walk lists the verifier sides the reference evaluation of the tree reaches
+// for the exchange, with the failure path each takes. For an API request the
+// verifiers see the URL as api.Forwarder rewrote it.
+func walk(a *attributor, msg *cfgx.Msg) []evalRec {
+	idx := map[*cfgx.Node]int{}
+	for i, v := range a.vs {
+		idx[v] = i
+	}
+	st := cfgx.NewState(msg)
+	if msg.API {
+		st.Scheme, st.Host = "http", fmt.Sprintf("%s:%d", apiHost, apiPort)
+	}
+	var out []evalRec
+	ref := &cfgx.Ref{St: st, OnVerifier: func(n *cfgx.Node, k cfgx.Kind, st *cfgx.State) {
+		out = append(out, evalRec{VIdx: idx[n], Side: k, Path: cfgx.FailPath(n, k, st)})
+	}}
+	ref.Run(a.t, cfgx.Req)
+	ref.Run(a.t, cfgx.Res)
+	return out
+}
+
 // evaluations lists what one exchange adds: unmet (verifier, side) pairs and
 // pingback hits. API requests add nothing.
 func evaluations(a *attributor, msg *cfgx.Msg) (unmet []attrKey, hits []int) {
 	if msg.API {
 		return nil, nil
 	}
-	idx := map[*cfgx.Node]int{}
-	for i, v := range a.vs {
-		idx[v] = i
-	}
-	st := cfgx.NewState(msg)
-	ref := &cfgx.Ref{St: st, OnVerifier: func(n *cfgx.Node, k cfgx.Kind, st *cfgx.State) {
-		if n.Kind == cfgx.KVPingback {
-			if cfgx.PingHit(n, st) {
-				hits = append(hits, idx[n])
+	for _, e := range walk(a, msg) {
+		if a.vs[e.VIdx].Kind == cfgx.KVPingback {
+			if e.Path == "hit" {
+				hits = append(hits, e.VIdx)
 			}
-			return
+			continue
 		}
-		if cfgx.Unmet(n, k, st) {
-			unmet = append(unmet, attrKey{VIdx: idx[n], Side: k})
+		if e.Path != "" {
+			unmet = append(unmet, attrKey{VIdx: e.VIdx, Side: e.Side})
 		}
-	}}
-	ref.Run(a.t, cfgx.Req)
-	ref.Run(a.t, cfgx.Res)
+	}
 	return
 }
 
+// pathClasses names the coverage classes (verifier kind x side x failure path
+// x api/traffic) an exchange contributes.
+func pathClasses(a *attributor, msg *cfgx.Msg) []string {
+	src := "traffic"
+	if msg.API {
+		src = "api"
+	}
+	var out []string
+	for _, e := range walk(a, msg) {
+		p := e.Path
+		if p == "" {
+			p = "met"
+		}
+		out = append(out, fmt.Sprintf("path|%s|%s|%s|%s", cfgx.KindAbbrev(a.vs[e.VIdx].Kind), e.Side, p, src))
+	}
+	return out
+}
+
 func (m *seqModel) traffic(ri *reqInfo) {
+	m.pathCls = append(m.pathCls, pathClasses(m.a, ri.Msg)...)
 	if ri.Msg.API {
 		m.apiSeen++
 		return
@@ -659,6 +737,7 @@ func (m *seqModel) reset() {
 		m.pingEver[k] = true
 	}
 	m.pingSeen = map[int]bool{}
+	m.pathCls = nil // what happened before a reset is not observable at the next query
 	m.resets++
 }
 
@@ -934,6 +1013,10 @@ func judgeSeq(r *vh.Run, c seqCase) {
 			pat += "+api"
 		}
 		r.Class(base + "|" + pat)
+		for _, pc := range m.pathCls {
+			r.Class(pc)
+		}
+		m.pathCls = nil
 		r.Count("queries_compared", 1)
 		r.Count("errors_compared", int64(len(msgs)))
 	}
@@ -1098,6 +1181,7 @@ func runConc(r *vh.Run, c concCase, race bool) {
 	}
 	defer s.close()
 	a := newAttributor(t)
+	violBefore := r.Violations()
 
 	G := 2 + rng.Intn(7)
 	perG := 4 + rng.Intn(7)
@@ -1114,7 +1198,7 @@ func runConc(r *vh.Run, c concCase, race bool) {
 				id++
 				var m *cfgx.Msg
 				if rng.Intn(8) == 0 {
-					m = apiMsg(rng, "/configure", "GET", id)
+					m = cfgx.GenAPI(rng, t, id, apiName, "/configure", "GET", false)
 				} else {
 					m = cfgx.GenTraffic(rng, t, id)
 					if proxyMode {
@@ -1125,7 +1209,7 @@ func runConc(r *vh.Run, c concCase, race bool) {
 			case x < 88:
 				if rng.Intn(6) == 0 {
 					id++
-					plans[g] = append(plans[g], cop{kind: "query", via: "proxy", msg: apiMsg(rng, "/verify", "GET", id), id: id})
+					plans[g] = append(plans[g], cop{kind: "query", via: "proxy", msg: cfgx.GenAPI(rng, t, id, apiName, "/verify", "GET", true), id: id})
 				} else {
 					plans[g] = append(plans[g], cop{kind: "query", via: "direct"})
 				}
@@ -1318,6 +1402,19 @@ func runConc(r *vh.Run, c concCase, race bool) {
 	r.Count("concurrent_ops", int64(nops))
 	r.Count("overlapping_op_pairs", int64(overlaps))
 	timeout := 60 * time.Second
+	allOK := true
+	defer func() {
+		// failure-path classes of the exchanges, once every partition was judged fine
+		if allOK && r.Violations() == violBefore {
+			for _, rec := range all {
+				if rec.op.msg != nil {
+					for _, pc := range pathClasses(a, rec.op.msg) {
+						r.Class(pc)
+					}
+				}
+			}
+		}
+	}()
 	for _, p := range parts {
 		model := setModel
 		if p.ping {
@@ -1329,9 +1426,11 @@ func runConc(r *vh.Run, c concCase, race bool) {
 			r.Count("porcupine_partitions_ok", 1)
 			r.Class(fmt.Sprintf("conc|top=%s|w=%s|%s|%s|overlap=%s", top, wiring, cfgx.KindAbbrev(p.side.V.Kind), p.side.placement(), bucket(overlaps)))
 		case porcupine.Unknown:
+			allOK = false
 			r.SetCase(c)
 			r.Inconclusive("porcupine timeout", map[string]interface{}{"ops": len(p.ops)})
 		case porcupine.Illegal:
+			allOK = false
 			var lines []string
 			for _, o := range p.ops {
 				lines = append(lines, fmt.Sprintf("g%d [%d,%d] %s", o.ClientId, o.Call, o.Return, model.DescribeOperation(o.Input, o.Output)))
